@@ -73,6 +73,7 @@ def make_edit(doc, facet, second, twin=False):
             before = [t.raw_text for t in toks]
             store = f.token_store
             tok = toks[i]
+            check(docenv.text_of(f) == text, 'printing the parsed document does not reproduce the input')    # print, then assign, then print again
         new = new_text(tok, c0, c1)
         if new is None:
             alts = ALTS.get(type(tok))
@@ -120,8 +121,9 @@ def make_edit(doc, facet, second, twin=False):
                     exp = exp + before[k]
                 else:
                     exp = exp + toks[k].raw_text
-            printed = ''.join(t.raw_text for t in f.tokens)
+            printed = docenv.text_of(f)      # the real printer, a second time (it already printed this document before the edit)
             check(printed == exp, 'printed text is not the input with the token span replaced', R(printed), R(exp))
+            check(''.join(t.raw_text for t in f.tokens) == exp, 'model.tokens is not the input with the token span replaced')
         else:
             acc = Acc()
             line = 0
